@@ -5,9 +5,13 @@ import (
 	"encoding/json"
 	"io"
 	"math/big"
+	"os"
+	"path/filepath"
 	"testing"
 
+	"github.com/ethereum/go-ethereum/accounts/keystore"
 	"github.com/ethereum/go-ethereum/crypto"
+	"github.com/primevprotocol/mev-commit/pkg/keysigner"
 	libp2pcrypto "github.com/libp2p/go-libp2p/core/crypto"
 	"github.com/libp2p/go-libp2p/core/peer"
 	mockkeysigner "github.com/primevprotocol/mev-commit/pkg/keysigner/mock"
@@ -18,6 +22,9 @@ import (
 type c18In struct {
 	D    string // private scalar, decimal
 	Full bool   // also start a real Service with this key
+	// which key signer feeds libp2p.New in the Full run: 0 = mock holding the key, 1 = the repository's
+	// private-key-file signer, 2 = the repository's keystore signer (both load the key from disk)
+	Signer int
 }
 
 type c18Obs struct {
@@ -28,6 +35,7 @@ type c18Obs struct {
 	X, Y        string // crypto.DecompressPubkey(Comp)
 	AddrPid     []byte // GetEthAddressFromPeerID(Pid); nil on error
 	AddrSign    []byte // crypto.PubkeyToAddress of the go-ethereum key (what signatures recover to)
+	AddrRecovered []byte // address recovered from a signature the key signer made (what peers see in handshakes)
 	StartOK     bool   // libp2p.New succeeded (Full only; true otherwise)
 	HostPid     []byte // HostID() of the started service (Full only)
 	HostAddr    []byte // GetEthAddressFromPeerID(HostID()) (Full only)
@@ -65,8 +73,55 @@ func c18Run(in c18In) (obs c18Obs) {
 	if obs.X == "" {
 		obs.X, obs.Y = "0", "0"
 	}
+	obs.AddrRecovered = obs.AddrSign
 	if in.Full {
-		ks := mockkeysigner.NewMockKeySigner(priv, crypto.PubkeyToAddress(priv.PublicKey))
+		var ks keysigner.KeySigner = mockkeysigner.NewMockKeySigner(priv, crypto.PubkeyToAddress(priv.PublicKey))
+		if in.Signer != 0 {
+			dir, err := os.MkdirTemp("", "c18ks")
+			if err != nil {
+				obs.StartOK = false
+				return obs
+			}
+			defer os.RemoveAll(dir)
+			switch in.Signer {
+			case 1:
+				path := filepath.Join(dir, "key")
+				if err := crypto.SaveECDSA(path, priv); err != nil {
+					obs.StartOK = false
+					return obs
+				}
+				pks, err := keysigner.NewPrivateKeySigner(path)
+				if err != nil {
+					obs.StartOK = false
+					return obs
+				}
+				ks = pks
+			case 2:
+				store := keystore.NewKeyStore(dir, keystore.LightScryptN, keystore.LightScryptP)
+				if _, err := store.ImportECDSA(priv, "pw"); err != nil {
+					obs.StartOK = false
+					return obs
+				}
+				kss, err := keysigner.NewKeystoreSigner(dir, "pw")
+				if err != nil {
+					obs.StartOK = false
+					return obs
+				}
+				ks = kss
+			}
+			// what the rest of the node signs with, and what it says its address is
+			obs.AddrSign = ks.GetAddress().Bytes()
+			h := crypto.Keccak256([]byte("c18 probe"))
+			if sig, err := ks.SignHash(h); err == nil {
+				if pub, err := crypto.SigToPub(h, sig); err == nil {
+					obs.AddrRecovered = crypto.PubkeyToAddress(*pub).Bytes()
+				} else {
+					obs.AddrRecovered = nil
+				}
+			} else {
+				obs.AddrRecovered = nil
+			}
+		}
 		svc, err := New(&Options{
 			KeySigner:  ks,
 			Secret:     "test",
@@ -100,7 +155,7 @@ func TestVerifC18(t *testing.T) {
 			return coqRecord("id", coqN(uint64(id)), "d", coqBigN(d), "pad_obs", coqBytes(obs.Pad),
 				"unmarshal_ok", coqBool(obs.UnmarshalOK), "comp", coqBytes(obs.Comp), "pid_obs", coqBytes(obs.Pid),
 				"px", coqBigN(x), "py", coqBigN(y), "addr_pid_obs", coqOptBytes(obs.AddrPid),
-				"addr_sign_obs", coqBytes(obs.AddrSign), "full", coqBool(in.Full), "start_ok", coqBool(obs.StartOK),
+				"addr_sign_obs", coqBytes(obs.AddrSign), "addr_recovered", coqBytes(obs.AddrRecovered), "full", coqBool(in.Full), "start_ok", coqBool(obs.StartOK),
 				"host_pid", coqBytes(obs.HostPid), "host_addr", coqOptBytes(obs.HostAddr))
 		})
 	}
@@ -116,10 +171,10 @@ func TestVerifC18(t *testing.T) {
 	}
 	n := crypto.S256().Params().N
 	one := big.NewInt(1)
-	run("edge", c18In{"1", true})
-	run("edge", c18In{new(big.Int).Sub(n, one).String(), true})
-	run("edge", c18In{"2", false})
-	run("edge", c18In{new(big.Int).Sub(n, big.NewInt(2)).String(), false})
+	run("edge", c18In{D: "1", Full: true})
+	run("edge", c18In{D: new(big.Int).Sub(n, one).String(), Full: true})
+	run("edge", c18In{D: "2"})
+	run("edge", c18In{D: new(big.Int).Sub(n, big.NewInt(2)).String()})
 	// every count k of leading zero bytes: scalars with exactly k leading zero bytes
 	per := 2
 	if e.Tier == "thorough" {
@@ -141,7 +196,12 @@ func TestVerifC18(t *testing.T) {
 				// may have changed the count of leading zeros; still a valid key
 			}
 			class := "leading-zeros"
-			run(class, c18In{d.String(), j == 0})
+			run(class, c18In{D: d.String(), Full: j == 0})
+			// the same key through the repository's own key signers (loaded from disk), every 4th count in quick
+			if j == 0 && (e.Tier == "thorough" || k%4 == 1 || k == 31) {
+				run("signer-file", c18In{D: d.String(), Full: true, Signer: 1})
+				run("signer-keystore", c18In{D: d.String(), Full: true, Signer: 2})
+			}
 		}
 	}
 	// keys whose PUBLIC coordinates have leading zero bytes (about 1 in 128 keys): found by search
@@ -164,15 +224,15 @@ func TestVerifC18(t *testing.T) {
 				if zy {
 					wantY--
 				}
-				run("pub-leading-zero", c18In{d.String(), wantX+wantY == 0})
+				run("pub-leading-zero", c18In{D: d.String(), Full: wantX+wantY == 0})
 			}
 		}
 	}
 	// exact powers of 256 and their predecessors (boundary of each byte length)
 	for k := 1; k <= 31; k++ {
 		p := new(big.Int).Lsh(one, uint(8*k))
-		run("byte-boundary", c18In{p.String(), false})
-		run("byte-boundary", c18In{new(big.Int).Sub(p, one).String(), false})
+		run("byte-boundary", c18In{D: p.String()})
+		run("byte-boundary", c18In{D: new(big.Int).Sub(p, one).String()})
 	}
 	for i := 0; i < e.N; i++ {
 		b := make([]byte, 32)
@@ -180,6 +240,6 @@ func TestVerifC18(t *testing.T) {
 		d := new(big.Int).SetBytes(b)
 		d.Mod(d, new(big.Int).Sub(n, one))
 		d.Add(d, one)
-		run("random", c18In{d.String(), false})
+		run("random", c18In{D: d.String()})
 	}
 }
